@@ -11,7 +11,7 @@ CONSTANTS Blocks, Optimizers, Batches
 
 MCGrads == {-1, 0, 2}
 
-\* block layer lists: <<kind, size/filters, bias>>; dense layers are n -> n, conv/deconv 3x3 (or the given kernel) stride 1, shape-preserving padding, on 1 x 4 x 4
+\* block layer lists: <<kind, size/filters, bias>>; dense layers produce n values (the first consumes what the last produces), conv/deconv 3x3 (or the given kernel) stride 1, shape-preserving padding, on 1 x 4 x 4
 BlockMenu == <<
   << <<"dense", 3, TRUE>> >>,
   << <<"dense", 4, FALSE>> >>,
@@ -22,17 +22,21 @@ BlockMenu == <<
   << <<"conv", 2, FALSE>>, <<"conv", 1, FALSE>> >>,
   \* non-square kernels (fourth component <<kh, kw>>, padding (kh-1)/2, (kw-1)/2 keeps the 4 x 4 shape)
   << <<"conv", 1, FALSE, <<1, 3>>>> >>,
-  << <<"deconv", 1, FALSE, <<3, 5>>>>, <<"conv", 2, FALSE, <<5, 3>>>>, <<"conv", 1, FALSE>> >>
+  << <<"deconv", 1, FALSE, <<3, 5>>>>, <<"conv", 2, FALSE, <<5, 3>>>>, <<"conv", 1, FALSE>> >>,
+  \* dense layers of different widths with mixed bias (3 -> 5 with bias, 5 -> 3 without; 4 -> 2 without, 2 -> 4 with)
+  << <<"dense", 5, TRUE>>, <<"dense", 3, FALSE>> >>,
+  << <<"dense", 2, FALSE>>, <<"dense", 4, TRUE>> >>
 >>
-\* parameters of one layer: dense n*n (+ n), conv/deconv filters * channels * 9 (channels follow the previous layer)
+\* parameters of one layer: dense out * in (+ out), where `in` is the width the previous layer produces (the block is a
+\* cycle: the first layer consumes what the last one produces); conv/deconv filters * channels * kh * kw
 RECURSIVE CountFrom(_, _, _)
 CountFrom(b, k, ch) ==
   IF k > Len(b) THEN 0
   ELSE LET l == b[k] IN
-       (IF l[1] = "dense" THEN l[2] * l[2] + (IF l[3] THEN l[2] ELSE 0)
+       (IF l[1] = "dense" THEN l[2] * ch + (IF l[3] THEN l[2] ELSE 0)
         ELSE l[2] * ch * (IF Len(l) = 4 THEN l[4][1] * l[4][2] ELSE 9))
-       + CountFrom(b, k + 1, IF l[1] = "dense" THEN ch ELSE l[2])
-ParamCount(b) == CountFrom(b, 1, 1)
+       + CountFrom(b, k + 1, l[2])
+ParamCount(b) == CountFrom(b, 1, IF b[1][1] = "dense" THEN b[Len(b)][2] ELSE 1)
 
 \* configuration cases are emitted from the initial states of the tying model (one per loops x accumulation)
 Emit ==
